@@ -638,16 +638,18 @@ mod detail {
         nodes: &[FlatNode<T>],
     ) -> ExprIdxVec {
         // A commutative operator between two numbers must not be preferred to a different
-        // operator of the same priority on its left that would lose its right operand.
+        // operator of the same priority on its left that would lose its right operand. Further,
+        // the operator that carries the unary operator of its parentheses has to be applied last.
         let can_be_preferred = |bin_op_idx: usize| {
             let op = &ops[bin_op_idx];
             let prio = op.bin_op.op.prio;
-            ops[..bin_op_idx]
-                .iter()
-                .rev()
-                .find(|o| o.bin_op.op.prio <= prio)
-                .map(|o| o.bin_op.op.prio < prio || o.bin_op.idx == op.bin_op.idx)
-                .unwrap_or(true)
+            op.unary_op.len() == 0
+                && ops[..bin_op_idx]
+                    .iter()
+                    .rev()
+                    .find(|o| o.bin_op.op.prio <= prio)
+                    .map(|o| o.bin_op.op.prio < prio || o.bin_op.idx == op.bin_op.idx)
+                    .unwrap_or(true)
         };
         let prio_increase =
             |bin_op_idx: usize| match (&nodes[bin_op_idx].kind, &nodes[bin_op_idx + 1].kind) {
